@@ -489,7 +489,9 @@ func runC19History(r *mon.Run, stream uint64) {
 func runC19(r *mon.Run, replay string) {
 	r.Rule("generated histories fed to a pruned node P and an unpruned twin U; PruneBlocks(h) for h in {0,1,mid,PRNG,tip,tip+1,tip+2,tip+5}, repeated; after every prune exactly the best-chain bodies below h must be absent (all other stored bodies present), index/states equal to the pure replay, MinReorgIndex = lowest block with all bodies above present, History/Headers equal to U's; forks with fork point above/at/below MinReorgIndex: at/above must be adopted with pure states, below may be refused with an error and an unchanged view; UpdatesSince/BlocksForHistory needing pruned bodies must error without panic; pruned store reopened from its durable image, pruned again, stopped (only the durable part survives), reopened and pruned again: exactly the best-chain bodies below the height are gone; a subscriber sitting on the highest pruned best-chain block must reach the tip; PruneBlocks with a heavier fork submitted from another goroutine during the walk (started from a store hook, lock hand-over forced by delays): the missing bodies and the tip must be explained by one of the two sequential orders; distinct = (regime, stream, pruned count, split)")
 	if st, ok := replayStream(replay); ok {
-		if st >= 195000 {
+		if st >= 197000 {
+			runC19Backlog(r, st)
+		} else if st >= 195000 {
 			runC19PruneRace(r, st)
 		} else {
 			runC19History(r, st)
@@ -498,6 +500,8 @@ func runC19(r *mon.Run, replay string) {
 	}
 	parallel(r.Pick(300, 5000), func(i int) { runC19History(r, uint64(190000+i)) })
 	parallel(r.Pick(48, 600), func(i int) { runC19PruneRace(r, uint64(195000+i)) })
+	parallel(r.Pick(3, 24), func(i int) { runC19Backlog(r, uint64(197000+i)) })
+	r.Floor("prunes_of_a_backlog_of_more_than_1000_bodies", 3)
 	r.Floor("prune_race_submission_started_by_the_hook", 20)
 	r.Floor("pruned_node_audits", 500)
 	r.Floor("subscribers_resumed_on_a_pruned_block", 100)
